@@ -184,6 +184,9 @@ def client_case(case):
         try:
             w.settle(until=t.done)
             if not t.done():
+                if fs.owes_nothing() and not fs.data_writers:
+                    # every command has got a complete, well-formed final reply and the client still waits
+                    problems.append({"kind": "client-waits-although-the-reply-is-complete"})
                 # the server has nothing more to say: it hangs up; the client must then finish
                 with Running(w.loop):
                     fs.hang_up()
@@ -254,6 +257,18 @@ def client_items(tier):
                           or (fam == "mlsx" and b" " not in m.rstrip()))
                 cases.append({"op": "list", "raw": raw, "listing": L(body), "mutated": fam + "-line",
                               "expect_lines": None if dotted else 3})
+    # over-long lines (beyond the 64 KiB stream limit) in listings and in replies
+    for n in (65530, 65536, 65537, 70000, 140000):
+        big = b"Type=file;Size=1; " + b"n" * n
+        cases.append({"op": "list", "raw": "MLSD", "listing": L(MLSX[0] + b"\r\n" + big + b"\r\n" + MLSX[1] + b"\r\n"),
+                      "mutated": "over-long-mlsd-line", "expect_lines": 3})
+        bigu = b"-rw-r--r-- 1 none none 10 Jan 15 12:30 " + b"n" * n
+        cases.append({"op": "list", "raw": "LIST", "listing": L(UNIX[0] + b"\r\n" + bigu + b"\r\n" + UNIX[1] + b"\r\n"),
+                      "mutated": "over-long-list-line", "expect_lines": 3})
+        cases.append({"op": "pwd", "raw": None, "replies": {"PWD": '257 "/' + "p" * n + '"\r\n'}, "listing": "",
+                      "mutated": "over-long-reply"})
+        cases.append({"op": "stat", "raw": None, "replies": {"MLST": "250-start\r\n Type=file; " + "x" * n + "\r\n250 end\r\n"},
+                      "listing": "", "mutated": "over-long-reply"})
     # '.' and '..' entries, recursion
     dots = (b"drwxr-xr-x 2 n n 0 Jan 15 12:30 .\r\ndrwxr-xr-x 2 n n 0 Jan 15 12:30 ..\r\n"
             b"drwxr-xr-x 2 n n 0 Jan 15 12:30 sub\r\n-rw-r--r-- 1 n n 3 Jan 15 12:30 f\r\n")
